@@ -111,6 +111,14 @@ func emitCorpus(dir string) {
 	put("noret_maps_preset_keys", "Create([]map) with preset keys without RETURNING: the keys in the maps are overwritten by LastInsertId arithmetic", in)
 	in = genInput(r, 9005, GenOpt{Type: "UnixU", NoRet: false, Op: "struct", N: 1})
 	put("unixtime_uint", "fixed defect (repo commit f5d72d2): serializer:unixtime on a uint field panicked in reflect.Value.Int; must now round-trip", in)
+	in = genInput(r, 9007, GenOpt{Type: "Twice", NoRet: false, Op: "struct", N: 1, AllowKnown: true})
+	dtw := descOf("Twice")
+	for j, f := range dtw.Fields {
+		if f.EmbRoot == "Alt" {
+			in.Recs[0][j] = vAbsent
+		}
+	}
+	put("nil_embedded_pointer", "a record created with a nil pointer-embedded struct that has a pointer field (Alt *Addr, Addr.Lat *float64) is read back with a non-nil zero struct", in)
 	in = genInput(r, 9006, GenOpt{Type: "Sers", NoRet: false, Op: "struct", N: 1, AllowKnown: true})
 	put("model_map_serializer", "Model(&T{}).Take(&map) on a model with serializer fields: Scan error", in)
 }
@@ -224,6 +232,6 @@ func main() {
 		}
 		add(kind, genInput(r, i, g))
 	}
-	out.Extra["rule"] = "cases = model type (fixed family of 18 hand-written struct types plus, in 2 of 5 struct cases, a struct type GENERATED at run time with reflect.StructOf from the grammar key kind {uint,int64,uint32,renamed,composite} x 3..12 fields drawn from 42 Go types x their tag alternatives (column:, default:, autoCreateTime/autoUpdateTime variants, serializer json/gob/unixtime, embedded+embeddedPrefix); the family covers: integer widths, floats/bool/string/bytes/time and pointers, sql.Null*, custom Scanner/Valuer, json/gob/unixtime serializers, embedded structs with prefixes and renamed columns, literal and database-generated defaults, tracked times, composite / renamed / string keys) x RETURNING on/off x Create of struct | slice | slice of pointers | CreateInBatches(bs) | map | []map x 1..7 records of boundary values x preset / zero / mixed keys x pre-existing rows; distinct = distinct (type, mode, op, sizes, per-cell value class zero/nil/absent/value) shapes; non-trivial = at least two records created without error"
+	out.Extra["rule"] = "cases = model type (fixed family of 20 hand-written struct types plus, in 2 of 5 struct cases, a struct type GENERATED at run time with reflect.StructOf from the grammar key kind {uint,int64,uint32,renamed,composite} x 3..12 fields drawn from 42 Go types x their tag alternatives (column:, default:, autoCreateTime/autoUpdateTime variants, serializer json/gob/unixtime, embedded+embeddedPrefix); the family covers: integer widths, floats/bool/string/bytes/time and pointers, sql.Null*, custom Scanner/Valuer, json/gob/unixtime serializers, embedded structs with prefixes and renamed columns, literal and database-generated defaults, tracked times, composite / renamed / string keys) x RETURNING on/off x Create of struct | slice | slice of pointers | CreateInBatches(bs) | map | []map x 1..7 records of boundary values x preset / zero / mixed keys x pre-existing rows; distinct = distinct (type, mode, op, sizes, per-cell value class zero/nil/absent/value) shapes; non-trivial = at least two records created without error"
 	lib.Must(out.Flush())
 }
